@@ -1,8 +1,9 @@
 #!/bin/sh
+VROOT=$(cd "$(dirname "$0")/.." && pwd)
 # run_all_seeds_par.sh [jobs] [tier] : every kept seeded change, in parallel, each applied in a scratch worktree of /repo
 # (never in /repo itself) and examined with VERIF_REPO=<worktree> ./check <prop>.  One line per seed.
 jobs=${1:-8}; tier=${2:-quick}
-cd /verif
+cd $VROOT
 ls -d seeded/*/*/ | sort > /tmp/seedlist.$$
 k=0
 while [ $k -lt $jobs ]; do
@@ -10,7 +11,7 @@ while [ $k -lt $jobs ]; do
     awk -v k=$k -v j=$jobs 'NR % j == k' /tmp/seedlist.$$ | while read d; do
       p=$(basename $(dirname $d)); name=$(basename $d)
       git -C $wt checkout -q -- .
-      if ! git -C $wt apply "/verif/$d/patch.diff" 2>/dev/null; then echo "$p/$name: PATCH-DOES-NOT-APPLY"; continue; fi
+      if ! git -C $wt apply "$VROOT/$d/patch.diff" 2>/dev/null; then echo "$p/$name: PATCH-DOES-NOT-APPLY"; continue; fi
       out=$(VERIF_REPO=$wt ./check $p --tier $tier 2>&1); rc=$?
       git -C $wt checkout -q -- .
       if [ $rc -eq 0 ]; then echo "$p/$name: MISSED"
